@@ -22,6 +22,7 @@ import (
 	"github.com/mimecast/dtail/internal/mapr/server"
 	"github.com/mimecast/dtail/internal/protocol"
 	user "github.com/mimecast/dtail/internal/user/server"
+	"github.com/mimecast/dtail/internal/vhook"
 )
 
 type handleCommandCb func(context.Context, lcontext.LContext, int, []string, string)
@@ -67,6 +68,7 @@ func (h *baseHandler) Read(p []byte) (n int, err error) {
 
 	select {
 	case message := <-h.serverMessages:
+		vhook.At("read.case", h, "msg", message)
 		if len(message) > 0 && message[0] == '.' {
 			// Handle hidden message (don't display to the user)
 			h.readBuf.WriteString(message)
@@ -99,6 +101,7 @@ func (h *baseHandler) Read(p []byte) (n int, err error) {
 		n, _ = h.readBuf.Read(p)
 
 	case line := <-h.lines:
+		vhook.At("read.case", h, "line", line.SourceID)
 		if !h.plain {
 			h.readBuf.WriteString("REMOTE")
 			h.readBuf.WriteString(protocol.FieldDelimiter)
@@ -240,6 +243,7 @@ func (h *baseHandler) handleAckCommand(argc int, args []string) {
 		return
 	}
 	if args[1] == "close" && args[2] == "connection" {
+		vhook.At("ack.recv", h)
 		select {
 		case <-h.ackCloseReceived:
 		default:
@@ -289,12 +293,14 @@ func (h *baseHandler) flush() {
 	for i := 0; i < 10; i++ {
 		if numUnsentMessages() == 0 {
 			dlog.Server.Debug(h.user, "ALL lines sent", fmt.Sprintf("%p", h))
+			vhook.At("flush.done", h, 0)
 			return
 		}
 		dlog.Server.Debug(h.user, "Still lines to be sent")
 		time.Sleep(time.Millisecond * 10)
 	}
 	dlog.Server.Warn(h.user, "Some lines remain unsent", numUnsentMessages())
+	vhook.At("flush.done", h, numUnsentMessages())
 }
 
 func (h *baseHandler) shutdown() {
@@ -304,6 +310,7 @@ func (h *baseHandler) shutdown() {
 	go func() {
 		select {
 		case h.serverMessages <- ".syn close connection":
+			vhook.At("syn.enqueue", h)
 		case <-h.done.Done():
 		}
 	}()
@@ -319,9 +326,11 @@ func (h *baseHandler) shutdown() {
 
 func (h *baseHandler) incrementActiveCommands() {
 	atomic.AddInt32(&h.activeCommands, 1)
+	vhook.At("cmd.recv", h, atomic.LoadInt32(&h.activeCommands))
 }
 
 func (h *baseHandler) decrementActiveCommands() int32 {
 	atomic.AddInt32(&h.activeCommands, -1)
+	vhook.At("cmd.done", h, atomic.LoadInt32(&h.activeCommands))
 	return atomic.LoadInt32(&h.activeCommands)
 }
